@@ -1,0 +1,228 @@
+//go:build verif
+
+// Contracts for package asn1parser (machine-checked by /verif/govc; comment-only file,
+// compiled only with -tags verif).
+
+package asn1parser
+
+// MAXELEM = 81920 + 17: largest element the streaming reader may buffer (ReadStruct's cap plus header).
+
+// ---- the reader abstraction
+
+//@ func Asn1Reader.Read
+//@   props C07
+//@   assigns *p, X.stream
+//@   ensures n_range: 0 <= r0 && r0 <= len(p)
+//@   ensures progress: err == nil && len(p) > 0 ==> r0 > 0
+
+//@ func Asn1Reader.Peek
+//@   props C07
+//@   assigns X.stream
+//@   ensures err == nil ==> len(ret) == n && n >= 0 && n <= 4096
+
+// ---- byte movers
+
+//@ func copyBytes
+//@   props C07
+//@   requires targetBytes != nil
+//@   requires 0 <= targetBytePosition && 0 <= countOfBytesToAdd
+//@   requires countOfBytesToAdd <= len(bytesToAdd)
+//@   requires targetBytePosition + countOfBytesToAdd <= len(*targetBytes)
+//@   assigns E.uint8
+//@   loop 1 invariant targetBytePosition <= i && i <= targetBytePosition + countOfBytesToAdd
+//@   loop 1 decreases targetBytePosition + countOfBytesToAdd - i
+
+//@ func ReadExpectedBytesRecursive
+//@   props C07
+//@   requires reader != nil && byteArray != nil
+//@   requires 0 <= currentPosition && currentPosition <= byteSize && len(*byteArray) == byteSize
+//@   requires[C07,C17] bounded: byteSize <= 81937
+//@   decreases byteSize - currentPosition
+//@   assigns E.uint8, X.stream
+
+//@ func ReadExpectedBytes
+//@   props C07
+//@   requires reader != nil
+//@   requires nonneg: byteSize >= 0
+//@   requires[C07,C17] bounded: byteSize <= 81937
+//@   assigns E.uint8, X.stream
+//@   ensures err == nil ==> len(ret) == byteSize
+
+//@ func PeekExpectedBytes
+//@   props C07
+//@   requires reader != nil
+//@   requires 0 <= byteSize && 0 <= offset
+//@   requires[C07,C17] bounded: byteSize <= 81937
+//@   assigns E.uint8, X.stream
+//@   ensures err == nil ==> len(ret) == byteSize && byteSize + offset <= 4096
+
+// ---- header decoding
+
+//@ func ReadTag
+//@   props C07
+//@   requires reader != nil
+//@   assigns E.uint8, X.stream
+//@   ensures err == nil ==> ret != nil
+
+//@ func PeekTag
+//@   props C07
+//@   requires reader != nil && 0 <= offset 
+//@   assigns E.uint8, X.stream
+//@   ensures err == nil ==> ret != nil && offset < 4096
+
+//@ func ReadUint8
+//@   props C07
+//@   requires reader != nil
+//@   assigns E.uint8, X.stream
+
+//@ func PeekUint8
+//@   props C07
+//@   requires reader != nil && 0 <= offset
+//@   assigns E.uint8, X.stream
+//@   ensures err == nil ==> offset < 4096
+
+//@ func ReadExpectedBigInt
+//@   props C07
+//@   requires reader != nil && 0 <= sizeOfLength && sizeOfLength <= 15
+//@   assigns E.uint8, X.stream
+//@   ensures err == nil ==> ret != nil && 0 <= big(ret) && big(ret) < pow256(sizeOfLength)
+
+//@ func PeekExpectedBigInt
+//@   props C07
+//@   requires reader != nil && 0 <= sizeOfLength && sizeOfLength <= 15 && 0 <= offset
+//@   assigns E.uint8, X.stream
+//@   ensures err == nil ==> ret != nil && 0 <= big(ret) && big(ret) < pow256(sizeOfLength)
+
+//@ func ReadLength
+//@   props C07
+//@   requires reader != nil
+//@   assigns E.uint8, X.stream
+//@   ensures err == nil ==> ret != nil && 1 <= ret.LengthSize && ret.LengthSize <= 16 && 0 <= ret.Length && ret.Length < pow256(ret.LengthSize - 1) + 128
+
+//@ func PeekLength
+//@   props C07
+//@   requires reader != nil && 0 <= offset
+//@   assigns E.uint8, X.stream
+//@   ensures err == nil ==> ret != nil && 1 <= ret.LengthSize && ret.LengthSize <= 16 && 0 <= ret.Length && ret.Length < pow256(ret.LengthSize - 1) + 128
+
+//@ func ReadTagLength
+//@   props C07
+//@   requires reader != nil
+//@   assigns E.uint8, X.stream
+//@   ensures err == nil ==> ret != nil && 1 <= ret.Length.LengthSize && ret.Length.LengthSize <= 16 && 0 <= ret.Length.Length
+
+//@ func PeekTagLength
+//@   props C07
+//@   requires reader != nil && 0 <= offset 
+//@   assigns E.uint8, X.stream
+//@   ensures err == nil ==> ret != nil && 1 <= ret.Length.LengthSize && ret.Length.LengthSize <= 16 && 0 <= ret.Length.Length && offset < 4096
+
+//@ func ExpectTag
+//@   props C07
+//@   pure
+//@   ensures (err == nil) == (expectedTag == tag)
+
+//@ func ExpectLengthNotGreater
+//@   props C07
+//@   requires expectedLength != nil && length != nil
+//@   pure
+//@   ensures (err == nil) == (big(length) <= big(expectedLength))
+
+//@ func CalculateWholeTLVLength
+//@   props C07
+//@   pure
+//@   ensures 0 <= tagLength.Length.Length && tagLength.Length.Length <= 9223372036854775807 - 17 && 0 <= tagLength.Length.LengthSize && tagLength.Length.LengthSize <= 16 ==> ret == tagLength.Length.Length + tagLength.Length.LengthSize + 1
+
+//@ func TagLength.CalculateTLVLength
+//@   props C07
+//@   pure
+//@   fresh r0
+//@   ensures ret != nil && big(ret) == l.Length.Length + l.Length.LengthSize + 1
+
+//@ func TagLength.CalculateValueLength
+//@   props C07
+//@   pure
+//@   fresh r0
+//@   ensures ret != nil && big(ret) == l.Length.Length
+
+//@ func TagLength.CalculateTLLength
+//@   props C07
+//@   pure
+//@   fresh r0
+//@   ensures ret != nil && big(ret) == l.Length.LengthSize + 1
+
+//@ func IsContextSpecificTag
+//@   props C07
+//@   requires tagLength != nil
+//@   pure
+
+//@ func GetContextSpecificTagId
+//@   props C07
+//@   requires tagLength != nil
+//@   pure
+//@   ensures 0 <= ret && ret <= 15
+
+//@ func IsContextSpecificTagWithId
+//@   props C07
+//@   requires tagLength != nil
+//@   pure
+
+// ---- element readers
+
+//@ func ReadTVLBytesWithLimit
+//@   props C07
+//@   requires reader != nil
+//@   requires 0 <= tagLength.Length.Length && 1 <= tagLength.Length.LengthSize && tagLength.Length.LengthSize <= 16
+//@   requires[C07,C17] limit: maxLength <= 81920
+//@   assigns E.uint8, X.stream
+//@   ensures err == nil ==> len(ret) == tagLength.Length.Length + tagLength.Length.LengthSize + 1
+
+//@ func ReadStruct
+//@   props C07
+//@   requires reader != nil
+//@   assigns *value, E.uint8, X.stream
+
+//@ func ReadUtcTime
+//@   props C07
+//@   requires reader != nil
+//@   assigns E.uint8, X.stream
+//@   ensures err == nil ==> ret != nil
+
+//@ func ParseBitString
+//@   props C07
+//@   requires reader != nil
+//@   assigns E.uint8, X.stream
+//@   ensures err == nil ==> ret != nil
+
+//@ func ParseOctetString
+//@   props C07
+//@   requires reader != nil
+//@   assigns E.uint8, X.stream
+
+//@ func ReadBigInt
+//@   props C07
+//@   requires reader != nil
+//@   assigns E.uint8, X.stream
+//@   ensures err == nil ==> ret != nil
+
+//@ func ParseUTCTime
+//@   props C07
+//@   pure
+//@   ensures err == nil ==> ret != nil
+
+//@ func ParseRDNSequence
+//@   props C07
+//@   assigns E.uint8, X.stream
+//@   ensures err == nil ==> ret != nil
+
+//@ func ParseIssuerRDNSequence
+//@   props C07
+//@   requires cert != nil
+//@   assigns E.uint8, X.stream
+//@   ensures err == nil ==> ret != nil
+
+//@ func ParseSubjectRDNSequence
+//@   props C07
+//@   requires cert != nil
+//@   assigns E.uint8, X.stream
+//@   ensures err == nil ==> ret != nil
